@@ -171,7 +171,7 @@ def parse_out(l):
 # ---- esl_mem.c string/number helpers (stateless ops; model lean/EaselModel/Buffer/Mem.lean, protocol MemDriver.lean) ----
 MEM_THEOREMS = ["EaselModel.Props.C05." + t for t in (
     "strtoi32_spec", "strtoi64_spec", "strtoi_spec_any_width", "strtoi_eq_specRes", "memspn_spec", "memcspn_spec", "memtok_spec",
-    "memtok_split_meaning", "memtok_eol_iff", "memstrcmp_spec", "memstrpfx_spec", "memstr_case_spec", "memstrcontains_spec", "memstrdup_spec", "memIsReal_spec", "memIsReal_no_fault")]
+    "memtok_split_meaning", "memtok_eol_iff", "memstrcmp_spec", "memstrpfx_spec", "memstr_case_spec", "memstrcontains_spec", "memstrdup_spec", "memIsReal_spec", "memIsReal_no_fault", "memIsRealL_spec", "memIsRealL_no_fault", "memIsRealL_sound")]
 MEM_LEVEL_TEXT = ("esl_mem.c helpers (round 4): esl_mem_strtoi32/64/strtoi satisfy Mem.StrtoiSpec for every byte string and base (EINVAL/EFORMAT/ERANGE/OK each by an iff on an "
                   "independent parse, nc and val in every case, no fault: no out-of-bounds read, no signed overflow); esl_memspn/memcspn = longest prefix in/not in the C-string set; "
                   "esl_memtok = takeWhile/dropWhile cut (EOL iff only delimiters; pieces concatenate to the input; *p/*n as left by the code); esl_memstrcmp/strpfx/strcontains (+_case) = "
@@ -268,6 +268,9 @@ def mem_spec(op):
         es = [k for k, c in enumerate(body) if c in b"eE"]
         ok = (tail.strip(MEM_WS) == b"" and any(48 <= c <= 57 for c in body) and body.count(b".") <= 1 and len(es) <= 1
               and not (es and b"." in body[es[0]:]))
+        if MEM_STATE["isreal_start"]:
+            # fix C05-mem-isreal-garbage (round 6): the number must start right after the blanks and the sign (digit, or '.' + digit)
+            ok = ok and (48 <= (r[:1] or b"x")[0] <= 57 or (r[:1] == b"." and 48 <= (r[1:2] or b"x")[0] <= 57))
         if MEM_STATE["isreal_strict"]:
             # the repaired code: only digits, '.', 'e'/'E', and a sign directly after the e/E
             for k, c in enumerate(body):
@@ -356,7 +359,12 @@ def mem_case(name, ops):
 def mem_corpus():
     out = []
     # genuine defect (model kept faithful to the code): esl_mem_IsReal passes over any byte that is not a digit, '.', 'e', 'E' or a blank
-    out.append(dict(mem_case("known-isreal-garbage", ["memisreal hex=" + hx(b"1x"), "memisreal hex=" + hx(b"abc1"), "memisreal hex=" + hx(b"--1")]), known_key=K_ISREAL))
+    if not MEM_STATE["isreal_start"]:
+        out.append(dict(mem_case("known-isreal-garbage", ["memisreal hex=" + hx(b"1x"), "memisreal hex=" + hx(b"abc1"), "memisreal hex=" + hx(b"--1")]), known_key=K_ISREAL))
+    else:
+        # regression (fix C05-mem-isreal-garbage): nothing but blanks and one sign may precede the number; what is attached to its end is
+        # tolerated as atof() does ("25.00;" on a Pfam #=GF GA line)
+        out.append(mem_case("reg-isreal-garbage", ["memisreal hex=" + hx(t) for t in (b"1x", b"abc1", b"--1", b"+-1", b"e5", b"x.5", b".e1", b".", b"-.", b" -.5 ", b"25.00;", b".5", b"5.", b"+5.e3", b" \t-1", b"- 1")]))
     fixed = [b"", b"-", b"0x", b"0X1", b"0", b"-0", b"00", b"08", b"0x8", b"0xg", b"-0x1f", b"0x1F", b" 0x", b"2147483647", b"2147483648", b"-2147483648", b"-2147483649",
              b"9223372036854775807", b"9223372036854775808", b"-9223372036854775808", b"-9223372036854775809", b" \t\n\v\f\r42z", b"+1", b"7fffffff", b"80000000",
              b"-80000000", b"-80000001", b"zz", b"ZZ", b"\xb1", b"1\x002", b"12 34", b"0x7fffffff", b"0x80000000", b"017777777777", b"020000000000", b"-020000000000", b"-020000000001"]
@@ -391,7 +399,7 @@ def mem_cases(rng, quick):
 
 
 K_ISREAL = "C05:mem:isreal-accepts-garbage"
-MEM_STATE = {"isreal_strict": False}
+MEM_STATE = {"isreal_strict": False, "isreal_start": False}
 
 
 def mem_generated(ctx):
@@ -408,6 +416,11 @@ def mem_generated(ctx):
     if strict and "p[-1]" not in tail.split("p++;")[0]:
         raise RuntimeError("esl_mem_IsReal was repaired in a way the model does not know (no exponent-sign branch): update Mem.realLoopS")
     MEM_STATE["isreal_strict"] = strict
+    # round 6 repair (C05-mem-isreal-garbage.patch): one statement between the sign and the loop, `if (! n || ! (isdigit(*p) || (*p == '.' && n > 1 && isdigit(p[1])))) return FALSE;`
+    head = body[:body.index("while (n)\n")] if "while (n)\n" in body else ""
+    head = re.sub(r"/\*.*?\*/", "", head, flags=re.S)
+    start = re.search(r"if\s*\(\s*!\s*n\s*\|\|\s*!\s*\(\s*isdigit\(\(int\)\s*\*p\)\s*\|\|\s*\(\s*\*p\s*==\s*'\.'\s*&&\s*n\s*>\s*1\s*&&\s*isdigit\(\(int\)\s*p\[1\]\)\s*\)\s*\)\s*\)\s*return\s+FALSE\s*;", head) is not None
+    MEM_STATE["isreal_start"] = start
     txt = """/-! GENERATED by props/c05.py `mem_generated` from esl_mem.c of the working tree — do not edit. -/
 namespace EaselModel.Buffer.Mem.MemConsts
 
@@ -415,8 +428,12 @@ namespace EaselModel.Buffer.Mem.MemConsts
     every byte that is no digit, '.', 'e', 'E' or blank (false: the code as it is; known finding C05:mem:isreal-accepts-garbage) -/
 def isRealStrict : Bool := %s
 
+/-- `esl_mem_IsReal` tests that the number starts right after the blanks and the sign (fix C05-mem-isreal-garbage, round 6; model
+    `Mem.memIsRealL`, MemRealStart.lean) -/
+def isRealStart : Bool := %s
+
 end EaselModel.Buffer.Mem.MemConsts
-""" % ("true" if strict else "false")
+""" % ("true" if strict else "false", "true" if start else "false")
     return {"EaselModel/Buffer/MemConsts.lean": txt}
 
 
@@ -540,7 +557,7 @@ def open_line(name, envk, dirs, ps, files):
         e = path.hex() + ":" + hx(unit) + ("*%d" % rep if rep != 1 else "")
         if plain is not None: e += ":" + hx(plain)
         ents.append(e)
-    return "fsopen name=%s env=%d dirs=%s ps=%d files=%s" % (name.hex(), envk, hx(dirs), ps, ",".join(ents) if ents else "-")
+    return "fsopen name=%s env=%d dirs=%s ps=%d files=%s%s" % (name.hex(), envk, hx(dirs), ps, ",".join(ents) if ents else "-", " retire=1" if BUF_STATE["retire"] else "")
 
 
 def open_parse(line):
@@ -767,7 +784,7 @@ def _open_cases(prop, rng, quick, ctx=None):
         if r["st"] == "fault": continue        # cannot happen (see above); never feed the known region
         ops = []
         if r["st"] == "ok":
-            ops = prop.gen_history(rng, r["src"], ps if ps > 0 else 512, rng.choice([3, 8, 20, 40]), stable=False)
+            ops = prop.gen_history(rng, r["src"], ps if ps > 0 else 512, rng.choice([3, 8, 20, 40]), stable=(BUF_STATE["retire"] and rng.random() < 0.4))
             for o in ops: prop.stats["ops"][o.split()[0]] = prop.stats["ops"].get(o.split()[0], 0) + 1
         out.append(open_mk(prop, "fsopen%d.%s" % (i, shape), line, ops))
         st["cases"] += 1
@@ -780,6 +797,38 @@ def _open_cases(prop, rng, quick, ctx=None):
 # END round4-open
 
 
+# round 6: does buffer_refill() keep handed-out pointers alive under a stable anchor (fix C05-stable-anchor-keep-oldmem)?
+BUF_STATE = {"retire": False}
+
+
+def buf_generated(ctx):
+    """EaselModel/Buffer/BufConsts.lean from esl_buffer.c/.h of the working tree: the repaired buffer_refill (never shift under bf->stable, retire the
+    old block instead of ESL_REALLOC) or the code before it. The executable model, the harness (open ... retire=1) and the theorems follow the tree."""
+    import os, re
+    c = re.sub(r"/\*.*?\*/", "", open(os.path.join(ctx.src, "esl_buffer.c")).read(), flags=re.S)
+    h = re.sub(r"/\*.*?\*/", "", open(os.path.join(ctx.src, "esl_buffer.h")).read(), flags=re.S)
+    m = re.search(r"\nbuffer_refill\(ESL_BUFFER \*bf, esl_pos_t nmin\)\n\{(.*?)\n\}\n", c, re.S)
+    if not m: raise RuntimeError("buffer_refill: not found in the modelled shape (props/c05.py: buf_generated)")
+    body = m.group(1)
+    marks = [re.search(r"\bstable\s*;", h) is not None, re.search(r"\*\*\s*retired\s*;", h) is not None,
+             re.search(r"bf->pos\s*>\s*0\s*&&\s*!\s*bf->stable", body) is not None,
+             re.search(r"ESL_MAX\(\s*bf->n\s*\+\s*bf->pagesize\s*,\s*2\s*\*\s*bf->balloc\s*\)", body) is not None,
+             re.search(r"bf->retired\[bf->nretired\+\+\]\s*=\s*bf->mem", body) is not None]
+    if any(marks) and not all(marks):
+        raise RuntimeError("buffer_refill / ESL_BUFFER: a stable-anchor repair of a shape the model does not know (marks %s): update Model.lean shiftLeft/growR" % marks)
+    BUF_STATE["retire"] = all(marks)
+    txt = """/-! GENERATED by props/c05.py `buf_generated` from esl_buffer.c / esl_buffer.h of the working tree — do not edit. -/
+namespace EaselModel.Buffer.BufConsts
+
+/-- `buffer_refill` under a stable anchor never shifts the window and retires the old block instead of `ESL_REALLOC`ing it
+    (fix C05-stable-anchor-keep-oldmem: fields `stable`, `retired`, `nretired` of ESL_BUFFER): true = the repaired code -/
+def stableRetire : Bool := %s
+
+end EaselModel.Buffer.BufConsts
+""" % ("true" if all(marks) else "false")
+    return {"EaselModel/Buffer/BufConsts.lean": txt}
+
+
 class C05(Prop):
     id = "C05"
     lean_modules = ["EaselModel.Props.C05"]
@@ -789,7 +838,7 @@ class C05(Prop):
         "open_wf", "refill_wf", "refill_guarantee", "getLine_refines", "fetchLine_refines", "read_refines",
         "getToken_refines", "fetchToken_refines", "lines_partition", "getLine_keeps_anchor", "countline_pagesize_independent",
         "history_spec", "history_mode_independent", "history_no_fault", "reread_under_anchor", "step_simulates", "get_prefix", "readLines_eq_specLines", "get_all_in_memory", "stable_ptr_valid_quiet", "open_quiet",
-        "stable_ptr_valid_partial", "stable_ptr_valid_fails_at",
+        "stable_ptr_valid", "stable_growth_bounded", "stable_ptr_valid_partial", "stable_ptr_valid_fails_at",
         # round 3: the API contract discharged
         "step_total", "history_total", "history_total_no_fault", "history_total_no_set", "error_only_outside_contract", "contract_implies_callerOk", "callerOk_decidable", "spec_bracket", "history_memory_exact", "history_memory_mode_independent",
         "unsafe_set_beyond_window", "fixed_setoffset_beyond_end_in_memory", "fixed_anchor_ahead_of_cursor", "fixed_rewind_before_anchor",
@@ -840,7 +889,7 @@ class C05(Prop):
             "(3) fsopen cases: a real directory tree + environment variable, esl_buffer_Open's choice compared with the model, followed by a valid history; plus stateless esl_mem ops (50 per case) against model and python oracle; "
             "non-trivial = at least one operation returned bytes; distinct by implementation output trace")
 
-    def generated(self, ctx): return {**open_generated(ctx), **mem_generated(ctx)}   # round4-open, round4-mem
+    def generated(self, ctx): return {**open_generated(ctx), **mem_generated(ctx), **buf_generated(ctx)}   # round4-open, round4-mem, round 6
 
     # ------------------------------------------------------------------ inputs
     def gen_edge_input(self, rng, ps):
@@ -913,7 +962,6 @@ class C05(Prop):
                 rem = len(src) - sp.cur
                 k = rng.choice([0, 1, 1, 2, 3, 4, 8, rng.randrange(0, 20), rem, rem + 1, max(0, rem - 1), rng.randrange(0, rem + 2)])
                 if readmax is not None: k = min(k, readmax)
-                if len(src) == 0: k = max(k, 1)      # memcpy(p, NULL, 0) on an empty slurped file: UBSan noise, not this property
                 cand = "read k=%d" % k
             elif pick == "raw":
                 if sp.lastp is not None and rng.random() < 0.7:
@@ -953,8 +1001,21 @@ class C05(Prop):
             out.append((m, ps))
         return out
 
+    @staticmethod
+    def stable_block_ops(src):
+        """a reader that collects a block under a stable anchor, twice (offsets from the python specification)"""
+        sp, ops = Spec(src), []
+        def do(op): ops.append(op); sp.apply(op)
+        do("getline"); o1 = sp.cur; do("setstable o=%d" % o1)
+        for _ in range(20): do("getline")
+        for _ in range(6): do("gettoken sep=20")
+        do("raise o=%d" % o1); do("getline"); o2 = sp.cur; do("setstable o=%d" % o2)
+        for _ in range(10): do("getline")
+        do("get"); do("raise o=%d" % o2); do("getline")
+        return ops
+
     def mk(self, name, src, m, ps, ops, rep=1, **kw):
-        return dict(name=name, ops=["open mode=%s ps=%d hex=%s%s%s" % (m, ps, hx(src), " rep=%d" % rep if rep != 1 else "", " wild=1" if kw.get("wild") else "")] + ops, sticky=1, mode=m, ps=ps, **kw)
+        return dict(name=name, ops=["open mode=%s ps=%d hex=%s%s%s%s" % (m, ps, hx(src), " rep=%d" % rep if rep != 1 else "", " wild=1" if kw.get("wild") else "", " retire=1" if BUF_STATE["retire"] else "")] + ops, sticky=1, mode=m, ps=ps, **kw)
 
     def corpus(self, ctx):
         """regression inputs of the three defects repaired in esl_buffer.c (cafe6fe, a12f75c) and the witness of the known finding"""
@@ -998,9 +1059,19 @@ class C05(Prop):
             out.append(dict(self.mk("openfail-" + kind, b"abc\n", "allfile", 4, ["openfail kind=" + kind, "getline"]), nomonitor=True))
         # known finding: the pointer handed out by `get` under the stable anchor is read again (`checkstable`) after the refill of `getline`
         # has reallocated the window: heap-use-after-free under ASan as long as the defect is in the tree (reported only then)
-        out.append(dict(self.mk("known-stable-realloc", b"ab\ncd\nef\n", "stream", 2, ["setstable o=0", "get", "getline", "checkstable", "raise o=0"]), known_key=K_STABLE, nomonitor=True))
-        # genuine (benign) defect: Read of 0 bytes on an empty slurped file = memcpy(p, NULL, 0) (UBSan); the generators avoid it (read k=0 on an empty input)
-        out.append(dict(self.mk("known-read0-null-mem", b"", "allfile", 4, ["read k=0", "getoffset"]), known_key=K_READ0, nomonitor=True))
+        if not BUF_STATE["retire"]:
+            out.append(dict(self.mk("known-stable-realloc", b"ab\ncd\nef\n", "stream", 2, ["setstable o=0", "get", "getline", "checkstable", "raise o=0"]), known_key=K_STABLE, nomonitor=True))
+        else:
+            # regression (fix C05-stable-anchor-keep-oldmem): the former witness, and whole blocks of lines/tokens collected under a stable anchor on
+            # every paged opener with page sizes 1..64 (what the SELEX/PHYLIP readers do) - the harness re-reads every pointer after every operation
+            out.append(dict(self.mk("reg-stable-realloc", b"ab\ncd\nef\n", "stream", 2, ["setstable o=0", "get", "getline", "checkstable", "raise o=0"]), nomonitor=True))
+            blk = b"".join(b"seq%02d  ACGUACGUAC%s\n" % (i, b"GU" * (i % 5)) for i in range(40))
+            for m in ("stream", "pipe", "file"):
+                for ps in (1, 2, 3, 7, 16, 17, 32, 33, 64, 65, 128, 129):
+                    out.append(self.mk("reg-stable-block.%s.%d" % (m, ps), blk, m, ps, self.stable_block_ops(blk)))
+        # regression (fix a854b4d): Read of 0 bytes on an empty input (slurped file: bf->mem == NULL) was memcpy(p, NULL, 0) (UBSan)
+        for m in MODES:
+            if m != "mmap": out.append(self.mk("reg-read0-null-mem." + m, b"", m, 4, ["read k=0", "getoffset", "read k=0", "read k=1", "get"]))
         # ---- outside the API contract: one scripted history per outcome of `Total` (exact model = implementation) ...
         W = b"ab\ncd\nef\ngh\n"
         for m in ("stream", "pipe", "file"):
@@ -1056,7 +1127,6 @@ class C05(Prop):
         if raw:
             # the same positioning calls without the try- prefix (since round 4 they are inside history_total either way); Set stays gated
             ops = [o[3:] if o.startswith(("trysetoffset", "trysetanchor", "trysetstable")) else o for o in ops]
-        if L == 0: ops = [("read k=1" if o == "read k=0" else o) for o in ops]   # memcpy(p, NULL, 0) on an empty slurped file: UBSan noise, not this property
         return ops
 
     def cases(self, ctx):
@@ -1080,7 +1150,7 @@ class C05(Prop):
                 cfgs = self.configs(rng, src, k, minps=64 if big else 1)
             minps = min((ps if ps > 0 else 512) for _, ps in cfgs)
             nops = rng.choice([5, 20, 60, 200]) if not big else 200
-            ops = self.gen_history(rng, src, minps, nops, tokens=True, readmax=None, stable=(rng.random() < 0.15))
+            ops = self.gen_history(rng, src, minps, nops, tokens=True, readmax=None, stable=(rng.random() < (0.5 if BUF_STATE["retire"] else 0.15)))
             self.stats["inputs"] += 1
             self.stats["input_bytes_max"] = max(self.stats["input_bytes_max"], len(src))
             for o in ops: self.stats["ops"][o.split()[0]] = self.stats["ops"].get(o.split()[0], 0) + len(cfgs)
@@ -1127,7 +1197,7 @@ class C05(Prop):
             # stable_ptr_valid_iff to the code; not on wild histories, where a stable anchor ahead of the cursor makes a memmove (same block) count in the model
             # (only during the FIRST stable-anchor episode of a case: the allocation history before and inside it does not depend on how a
             # repaired buffer_refill() would grow the window under a stable anchor, cf. /var/tmp/fixes-proposed/C05-stable-anchor-keep-oldmem.patch)
-            if not case.get("wild") and not case.get("mem") and i < len(impl_out) and i < len(model_out) and not stable_over:
+            if not BUF_STATE["retire"] and not case.get("wild") and not case.get("mem") and i < len(impl_out) and i < len(model_out) and not stable_over:
                 ma, mb = "moved=1" in impl_out[i].split(), "moved=1" in model_out[i].split()
                 if ma != mb: return (i, "implementation: window %s since the stable anchor was set" % ("moved" if ma else "not moved"), "model: %s" % ("moved" if mb else "not moved"))
                 if 0 < i < len(ops) and ops[i].startswith("setstable") and b.startswith("ok") and " a=-" not in b: stable_seen = True
